@@ -396,6 +396,14 @@ def check_pdf(runs, rep, txs, cnt, viols):
         if missing:
             cnt["pdf_layout_not_recognised(inconclusive)"] += 1
             return
+    # Each table is read only if its header row is exactly the one this reader was written for; a table whose columns
+    # were renamed, added or reordered is counted as not recognised (and the per-table thresholds then make the run
+    # inconclusive) instead of being mis-read into a "figure differs" violation.
+    SUMMARY_HEAD = ("Tax Year\nDisposals\n1\nGains\n2\n(after losses)\nGains\n2\n(before losses)\nLosses\n2\nProceeds\n3\n"
+                    "Exemption\nTaxable gain\n")
+    if rep["years"] and SUMMARY_HEAD not in text:
+        cnt["pdf_table_layout_not_recognised:summary"] += 1
+        return
     # summary table
     body = text.split("Taxable gain\n", 1)[-1].split("Notes:", 1)[0] if rep["years"] else ""
     rows = re.findall(r"(\d{4}/\d{2})\n(\d+)\n(" + M + r")\n(" + M + r")\n(" + M + r")\n(" + M + r")\n(" + M + r")\n(" + M + r")", body)
@@ -468,8 +476,13 @@ def check_pdf(runs, rep, txs, cnt, viols):
     # holdings
     held = {k: v for k, v in rep["holdings"].items() if v[0] > 0}
     hsec = text.split("\nHoldings\n", 1)[-1].split("\nTransactions\n", 1)[0]
+    holdings_known = (not held) or ("\nHoldings\nTicker\nQuantity\nAvg Cost\n" in text)
+    if not holdings_known:
+        cnt["pdf_table_layout_not_recognised:holdings"] += 1
     hrows = re.findall(r"\n(\S+)\n([\d.]+)\n(" + M + ")", "\n" + hsec.split("Avg Cost", 1)[-1]) if held else []
-    if len(hrows) != len(held):
+    if not holdings_known:
+        pass
+    elif len(hrows) != len(held):
         viols.append({"clause": "holdings-list-differs", "signature": "pdf:holdings-list-differs", "detail": f"{hrows} vs {sorted(held)}"})
     else:
         for (tk, q, avg), want in zip(hrows, sorted(held)):
@@ -478,10 +491,14 @@ def check_pdf(runs, rep, txs, cnt, viols):
             if abs(Fraction(q) - held[want][0]) > QTOL:
                 viols.append({"clause": "quantity-differs", "signature": "pdf:quantity-differs", "detail": f"holding {q}"})
             ck.money(f"holding {want} average cost", pdf_money(avg), held[want][1] / held[want][0])
+            cnt["pdf_holdings_rows_read"] += 1
     # transactions table: GBP prices and fees are money figures too
     tsec = text.split("\nTransactions\n", 1)[-1].split("\nAsset Events\n", 1)[0]
     trows = re.findall(r"(\d\d/\d\d/\d{4})\n(BUY|SELL)\n(\S+)\n([\d.]+)\n([^\n]+)\n([^\n]+)", tsec)
     trades = sorted([t for t in txs if t["kind"] in ("BUY", "SELL")], key=lambda t: (t["date"], t["ticker"]))
+    if trades and "\nTransactions\nDate\nType\nTicker\nQty\nPrice\nFees\n" not in text:
+        cnt["pdf_table_layout_not_recognised:transactions"] += 1
+        return
     if len(trows) != len(trades):
         viols.append({"clause": "transaction-list-differs", "signature": "pdf:transaction-list-differs",
                       "detail": f"{len(trows)} rows for {len(trades)} trades"})
@@ -492,6 +509,7 @@ def check_pdf(runs, rep, txs, cnt, viols):
                 # same (date,ticker) group may hold BUY and SELL in input order; tolerate order inside the group
                 continue
             cnt["pdf_quantity_fields"] += 1
+            cnt["pdf_transaction_rows_read"] += 1
             if abs(Fraction(r[3]) - fr(t["amount"])) > QTOL:
                 viols.append({"clause": "quantity-differs", "signature": "pdf:quantity-differs", "detail": f"transaction {r[3]} vs {t['amount']}"})
             for shown, mny, nm_ in ((r[4], t["price"], "price"), (r[5], t["fees"], "fees")):
@@ -658,7 +676,7 @@ def replay(case):
     return vs, {"plain": o.get("ok", {}).get("plain"), "pdf_runs": o.get("ok", {}).get("pdf_runs"), "json": o.get("ok", {}).get("json")}
 
 
-THRESHOLDS = {"plain_midpoint_figures": 1000, "json_midpoint_figures": 1000, "pdf_midpoint_figures": 1000,
+THRESHOLDS = {"pdf_holdings_rows_read": 1000, "pdf_transaction_rows_read": 3000, "plain_midpoint_figures": 1000, "json_midpoint_figures": 1000, "pdf_midpoint_figures": 1000,
               "plain_negative_figures": 300, "pdf_negative_figures": 300, "pdf_figures_ge_1e6": 200,
               "plain_figures_ge_1e6": 200, "pdf_foreign_echoes": 100, "reports": 1500,
               "mcp_calculate_answers": 20, "mcp_explain_answers": 30, "mcp_figures": 300}
